@@ -75,6 +75,8 @@ Loads == [
   qchemlog |-> << D("atnums"), L("atcoords", "angstrom", 10), L("energy", "au", 10), L("atcharges.mulliken", "au", 6),
                   L("extra.nuclear_repulsion_energy", "au", 8), L("mo.energies", "au", 4), D("lot"), D("obasis_name"), D("run_type"),
                   L("athessian", "au", 7) >>,
+  wfx |-> << D("atnums"), L("atcoords", "au", 12), L("energy", "au", 12), L("atgradient", "au", 12), D("title"), L("mo.occs", "au", 12),
+             L("mo.energies", "au", 8) >>,
   gamess |-> << D("atnums"), L("atcoords", "angstrom", 10), L("energy", "au", 10), L("atgradient", "au", 14), L("athessian", "au", 9), D("title") >>,
   gaussianinput |-> << D("atnums"), L("atcoords", "angstrom", 8), D("title") >>,
   fchk |-> << D("atnums"), L("atcoords", "au", 8), L("atcorenums", "au", 8), L("energy", "au", 8), L("atmasses", "amu", 8),
